@@ -161,6 +161,13 @@ func (g *gen) request() (map[string]any, meaning) {
 				desc = g.text()
 				t["description"] = desc
 			}
+			// documented optional members of a client tool definition
+			if rng.Intn(5) == 0 {
+				t["cache_control"] = map[string]any{"type": "ephemeral"}
+			}
+			if rng.Intn(6) == 0 {
+				t["type"] = "custom"
+			}
 			tools = append(tools, t)
 			m.Tools = append(m.Tools, map[string]any{"name": name, "description": desc, "schema": schema})
 		}
@@ -580,7 +587,8 @@ func invalidate(rng *rand.Rand, doc map[string]any) (string, []byte) {
 	}
 	kinds := []string{"max_tokens=0", "max_tokens=-5", "max_tokens-absent", "temperature=-0.1", "temperature=2.5", "top_p=1.5", "top_p=-1", "top_k=-1", "model-empty", "model-absent", "messages-empty", "messages-absent",
 		"type:max_tokens-string", "type:messages-string", "type:stream-string", "type:model-number", "syntax:truncated", "syntax:garbage", "syntax:empty",
-		"role:unknown/string-content", "role:unknown/block-content", "role:system-in-messages", "role:empty", "tool_choice:unknown-type", "tool_choice:unknown-string", "tool_use:no-id", "tool_use:no-name"}
+		"role:unknown/string-content", "role:unknown/block-content", "role:system-in-messages", "role:empty", "tool_choice:unknown-type", "tool_choice:unknown-string", "tool_use:no-id", "tool_use:no-name",
+		"syntax:trailing-garbage", "tool_result:no-tool_use_id", "tool_use:input-not-an-object", "content:list-of-strings", "text-block:text-not-a-string", "system:number"}
 	k := kinds[rng.Intn(len(kinds))]
 	switch k {
 	case "max_tokens=0":
@@ -629,6 +637,20 @@ func invalidate(rng *rand.Rand, doc map[string]any) (string, []byte) {
 	case "tool_choice:unknown-string":
 		d["tools"] = []any{map[string]any{"name": "f", "description": "d", "input_schema": map[string]any{"type": "object"}}}
 		d["tool_choice"] = "sometimes"
+	case "tool_result:no-tool_use_id":
+		d["messages"] = []any{map[string]any{"role": "user", "content": "go"},
+			map[string]any{"role": "assistant", "content": []any{map[string]any{"type": "tool_use", "id": "toolu_1", "name": "f", "input": map[string]any{"a": 1}}}},
+			map[string]any{"role": "user", "content": []any{map[string]any{"type": "tool_result", "content": "42"}}}}
+	case "tool_use:input-not-an-object":
+		d["messages"] = []any{map[string]any{"role": "user", "content": "go"},
+			map[string]any{"role": "assistant", "content": []any{map[string]any{"type": "tool_use", "id": "toolu_1", "name": "f", "input": []any{1, 2}}}},
+			map[string]any{"role": "user", "content": []any{map[string]any{"type": "tool_result", "tool_use_id": "toolu_1", "content": "42"}}}}
+	case "content:list-of-strings":
+		d["messages"] = []any{map[string]any{"role": "user", "content": []any{"hi"}}}
+	case "text-block:text-not-a-string":
+		d["messages"] = []any{map[string]any{"role": "user", "content": []any{map[string]any{"type": "text", "text": 5}}}}
+	case "system:number":
+		d["system"] = 42
 	case "tool_use:no-id", "tool_use:no-name":
 		tu := map[string]any{"type": "tool_use", "id": "toolu_1", "name": "f", "input": map[string]any{"a": 1}}
 		delete(tu, strings.TrimPrefix(k, "tool_use:no-"))
@@ -640,6 +662,8 @@ func invalidate(rng *rand.Rand, doc map[string]any) (string, []byte) {
 	switch k {
 	case "syntax:truncated":
 		b = b[:len(b)/2]
+	case "syntax:trailing-garbage":
+		b = append(b, []byte(" ]]] this is not JSON")...)
 	case "syntax:garbage":
 		b = []byte("{not json at all")
 	case "syntax:empty":
